@@ -5,7 +5,13 @@ PEPit/primitive_steps/*.py; the theorems of Props/C08.v are about those generate
 the REAL step functions (leaf / combination start points, leaf functions with a recorded history, every option
 including the default and an invalid one) are compared, exactly, with Model/StepsRT.v's interpreter run on the
 generated programs: returned dictionaries, argument objects after the call (in-place pruning), counters, every
-function's list_of_points and list_of_constraints.
+function's list_of_points and list_of_constraints.  (H, composite) the same real step functions called on COMPOSITE
+functions (sums / scaled / nested sums of 2-3 leaf functions of mixed classes, terms evaluated before or not, one
+or two calls in a row, start points leaf / combination / returned by the previous call) are compared, exactly, with
+Model/StepsFunc.v -- the same generated programs interpreted over C07's function table (Model/Func.v): returned
+dictionaries, argument objects, counters, and for the composite AND every term weights, list_of_points,
+list_of_stationary_points, list_of_constraints (stream "step-calls-composite"; theorems C08_composite_* and
+C08_leaf_agreement_* of Props/C08.v, C07_*step_program* of Props/C07.v).
 
 Search: members with computable steps in exact Fractions (harness/stepslib.py): the real step is run through
 PEPit, the fresh leaves are valued by the real outputs, every recorded sample must be genuine ((sub)gradient
@@ -21,8 +27,10 @@ GEN_DEPS = ["Steps.v", "tr_steps"]
 TRUSTED = [
     "translator/tr_steps.py (grammar in its docstring = DESIGN.md A.3), reusing pep2coq.Tr for Point/Expression terms",
     "Model/StepsRT.v: interpreter of the step language and hand-written model of Function.oracle / value / add_point / "
-    "add_constraint for LEAF functions (composite functions: distribution over leaves belongs to C07 and is exercised "
-    "here only on the implementation side, in the search); tied by the step-calls stream",
+    "add_constraint for LEAF functions; tied by the step-calls stream",
+    "Model/StepsFunc.v: interpreter of the same step language over Model/Func.v (C07's hand-written model of oracle / "
+    "value / add_point on leaf AND composite functions; list_of_constraints kept beside it as a log); agrees with "
+    "Model/StepsRT.v on leaves by theorem (C08_leaf_agreement_*); tied by the step-calls-composite stream",
     "Spec/StepsSpec.v: hand-written mathematical meaning of each step (from the docstrings) and of a real execution "
     "(prox = minimiser, linear optimisation = argmin over dom, line search = minimiser over x0 + span, Gateaux "
     "differentiability); functions and their domains are assumed to respect veq (equality as seen by inner products)",
@@ -38,6 +46,9 @@ ASSUMES = [
 IMPORTS = ["From PV Require Import Model.StepsRT Gen.Steps."]
 RUN = "run_case"
 INPUT_TYPE = "scase"
+IMPORTS_C = ["From PV Require Import Model.StepsRT Model.StepsFunc Gen.Steps."]
+RUN_C = "run_fcase"
+INPUT_TYPE_C = "fcase"
 
 
 def _key(case):
@@ -45,6 +56,75 @@ def _key(case):
 
 
 def correspondence(tier, seed, corpus=()):
+    return [correspondence_leaf(tier, seed, corpus), correspondence_composite(tier, seed)]
+
+
+def correspondence_composite(tier, seed):
+    """the real steps on COMPOSITE functions vs. Model/StepsFunc.v (the generated programs over C07's function table)"""
+    rng = random.Random(seed * 15485863 + 808)
+    n = 420 if tier == "quick" else 4000
+    descs = []
+    for name in S.STEP_NAMES:
+        kinds, lits = S.STEPS[name]
+        for o in (lits + ["#default", "bogus"]) if lits else ["#none"]:
+            for _ in range(5):
+                descs.append(S.gen_comp_case(rng, step=name, opt=o))
+    while len(descs) < n:
+        descs.append(S.gen_comp_case(rng))
+    cases, kept, problems = [], [], []
+    hist, paths, shapes, recs, cls = {}, {}, {}, {}, {}
+    dropped = 0
+    distinct = set()
+
+    def bump(h, k):
+        h[k] = h.get(k, 0) + 1
+    for d in descs:
+        try:
+            outs = S.run_impl_comp(d)
+        except Exception as e:
+            problems.append(dict(kind="implementation-raised", ccase=d, error=repr(e)))
+            continue
+        dropped += len(d["calls"]) - len(outs)
+        for k, (lit, dump, info) in enumerate(outs):
+            cases.append((lit, dump))
+            kept.append((d, k, dump))
+            bump(hist, "%s/%s" % (info["step"], info["opt"] or "-"))
+            bump(paths, info["result_kind"] + ("/" + info["error"] if info["error"] else ""))
+            comp = any(info["composite_args"])
+            bump(shapes, ("composite" if comp else "leaf") +
+                 ("/%s-terms" % "+".join(map(str, info["nterms"])) if comp else "") +
+                 ("/terms-evaluated-before" if info["terms_before"] else "") +
+                 ("/second-call" if info["second"] else "") + ("/start-from-returned-point" if info["from_return"] else ""))
+            bump(recs, "%s:+%d-on-composites+%d-on-leaves" % (info["step"], info["new_on_comps"], info["new_on_terms"]))
+            bump(cls, "+".join(info["classes"]))
+            if info["result_kind"] == "ok" and comp:
+                distinct.add(_key((d, k)))
+    bad = run_cases("c08c", IMPORTS_C, RUN_C, cases, input_type=INPUT_TYPE_C)
+    mism = []
+    for i in bad[:4]:
+        d, k, dump = kept[i]
+        mism.append(dict(kind="model-differs", ccase=d, call=k, implementation=dump,
+                         model=model_output(IMPORTS_C, RUN_C, cases[i][0])))
+    return dict(name="step-calls-composite", evaluations=len(cases), distinct_nontrivial=len(distinct),
+                rule="seeded worlds of 2-3 leaf functions of 7 class configurations (differentiable and not) and 1-2 "
+                     "composites built with the real operators (w1*f1 + w2*f2 (+ w3*f3), a scaled single term, nested sums; "
+                     "weights 1, 2, 1/2, -1, 4, 1/4, 3, 3/2, 2^-20, 2^12, never cancelling), 0-3 prior oracle / value / add_point / "
+                     "stationary_point / add_constraint calls on terms or composites (terms evaluated before the sum or "
+                     "not), then 1-2 calls of the 8 real step functions (every option, the default, an invalid one) on a "
+                     "composite (75 %) or a leaf, start points leaf / combination / already evaluated / zero-padded / a point "
+                     "returned by the first call; compared exactly with Model/StepsFunc.v run on the generated programs: "
+                     "returned dictionaries, argument objects after the call, counters, and for EVERY function (composite and "
+                     "each term) is_leaf, reuse_gradient, weights, list_of_points, list_of_stationary_points, "
+                     "list_of_constraints; every float operation monitored for exactness; non-trivial = normal return "
+                     "with a composite function argument; distinct by full input",
+                mismatches=mism, n_mismatch=len(bad), problems=problems[:5], n_problems=len(problems),
+                samples=[dict(case=kept[i][0], call=kept[i][1], result=kept[i][2]) for i in range(min(2, len(kept)))],
+                distribution=dict(step_option=hist, outcomes=paths, function_argument=shapes,
+                                  samples_recorded=recs, classes_of_the_terms=cls,
+                                  dropped_because_a_float_operation_rounded=dropped))
+
+
+def correspondence_leaf(tier, seed, corpus=()):
     rng = random.Random(seed * 104729 + 8)
     n = 600 if tier == "quick" else 6000
     descs = [c for c in (corpus or [])]
@@ -138,6 +218,12 @@ def replay(payload):
             return S.semantic_trial(payload["trial"]) is not None
         except Exception:
             return True
+    if "ccase" in payload:
+        try:
+            outs = S.run_impl_comp(payload["ccase"])
+        except Exception:
+            return True
+        return bool(run_cases("c08cr", IMPORTS_C, RUN_C, [(l, d) for l, d, _ in outs], input_type=INPUT_TYPE_C))
     if "case" in payload:
         try:
             lit, dump, info = S.run_impl(payload["case"])
